@@ -117,13 +117,33 @@ def run_text(laze, text, args=None):
     finally:
         shutil.rmtree(tmp, ignore_errors=True)
 
+def run_sequence(laze, files, steps):
+    """several command lines in ONE build directory (cache, info export, tasks, clean): -> list of (rc, stderr tail)"""
+    tmp = tempfile.mkdtemp(prefix=e2e.SCRATCH_PREFIX); root = os.path.join(tmp, "p")
+    try:
+        proj.render(files, root)
+        bindir = os.path.join(tmp, "bin"); os.makedirs(bindir)
+        nj = os.path.join(bindir, "ninja"); open(nj, "w").write(e2e.FAKE_NINJA); os.chmod(nj, 0o755)
+        env = e2e.clean_env(tmp); env.update(PATH=bindir + ":" + env.get("PATH", ""), LAZE_VERIF_NINJA_LOG=os.path.join(tmp, "n.log"), LAZE_VERIF_NINJA_RC="0")
+        out = []
+        for a in steps:
+            try:
+                p = subprocess.run([laze, "-C", root] + a, env=env, capture_output=True, timeout=30)
+                out.append((p.returncode, p.stderr.decode("utf-8", "replace")[-300:]))
+            except subprocess.TimeoutExpired:
+                out.append(("timeout", ""))
+        return out
+    finally:
+        shutil.rmtree(tmp, ignore_errors=True)
+
 def crashed(rc): return rc == "timeout" or not isinstance(rc, int) or rc < 0 or rc not in (0, 1, 2)
 
 def run(rep, tier, seed, rng):
     core.proof_step(rep, "C15", clean=(tier == "thorough"))
-    inv = {x["line"] for x in json.load(open(os.path.join(core.VERIF, "corpus", "panic_inventory.json")))}
+    inv = [x["line"] for x in json.load(open(os.path.join(core.VERIF, "corpus", "panic_inventory.json")))]
     now = panic_inventory.scan(core.REPO)
-    new = [l for l in now if l not in inv]
+    from .. import inventory as _inv
+    new, _gone = _inv.compare(inv, now)        # on normalised text: a renamed variable is not a new site
     laze = core.build_impl(); driver = core.build_model()
     n_struct = 400 if tier == "quick" else 6000
     n_conf = 300 if tier == "quick" else 5000
@@ -193,6 +213,26 @@ def run(rep, tier, seed, rng):
         if crashed(rc):
             rep.violation("laze crashes / hangs on %s (%s): rc=%s %s" % (kind, d, rc, err[-200:]),
                           dict(kind=kind, yaml_text=text.decode("utf-8", "replace")[:4000], args=a, what=d), found_input=True)
+    # (e) valid projects, several command lines in one build directory: the cache, the info export, tasks and clean
+    #     meet each other; crashes only
+    seqs = []
+    INFO = ["-i", "build/info.json"]
+    for f, c in directed.cases()[:12] + [genproj.gen_project(rng) for _ in range(12 if tier == "quick" else 120)]:
+        sel = proj.argv({k: v for k, v in c.items() if k in ("select", "disable", "define")})
+        b = ["build", "-g"]
+        seqs.append((f, [b + ["-G"] + sel, b + ["-G"] + INFO + sel, b + ["-G"] + INFO + sel, b + INFO + sel, b + sel,
+                         ["build", "-g", "-c", "-G"] + sel, ["clean", "-g"], b + ["-G"] + INFO + sel, ["clean", "-g", "--unused"], b + ["nosuchtask"] + sel]))
+    with ThreadPoolExecutor(core.NCPU) as ex:
+        souts = list(ex.map(lambda fs: run_sequence(laze, fs[0], fs[1]), seqs))
+    nseq = 0
+    for (f, steps), res in zip(seqs, souts):
+        for a, (rc, err) in zip(steps, res):
+            nseq += 1
+            if crashed(rc):
+                rep.violation("laze crashes / hangs on a valid project after earlier runs in the same build directory (%s): rc=%s %s" % (" ".join(a), rc, err[-200:]),
+                              dict(kind="sequence", files=f, steps=steps, failing=a), found_input=True)
+                break
+    counts["sequence steps"] = nseq
     if new:
         rep.violation("new potential panic sites in the sources that the reviewed inventory does not list (%d)" % len(new),
                       dict(new=new[:20], inventory="corpus/panic_inventory.json"), found_input=False)
@@ -200,7 +240,7 @@ def run(rep, tier, seed, rng):
                    rule="(a) one or two structured malformations (24 kinds: parent cycles, unknown/duplicate/empty names, odd sources, rules without out/LINK, unclosed braces, "
                         "bad expressions and non-ASCII text in every string position, defaults with context lists, self-including files, ...) applied to random and directed "
                         "projects, compared with the model; (b) type confusion / deletion at a random node of the YAML structure; (c) 1-4 byte-level mutations of the YAML text; "
-                        "(d) malformed argument vectors; for (b)-(d) only crashes, hangs and exit statuses outside {0,1,2} count; non-trivial = every structured malformed project",
+                        "(d) malformed argument vectors; (e) valid projects with ten command lines in one build directory (generate, info export before/after a cached run, compile commands, clean, unknown task); for (b)-(e) only crashes, hangs and exit statuses outside {0,1,2} count; non-trivial = every structured malformed project",
                    samples=[dict(malformation=descs[0], rc=results[0]["impl"]["rc"], model=results[0]["model"]["kind"])],
                    malformation_kinds=kinds, other_streams=counts, panic_inventory_sites=len(now), panic_inventory_new=len(new), disagreements=ndis)
     rep.assumptions.append("serde_yaml, clap and the OS are exercised, not modelled; stack exhaustion at extreme nesting is outside the model")
